@@ -40,7 +40,7 @@ def sigP : Sig → PSig
 def Post (sg : Sig) (σ : RSt) (π : PSt) : Prop :=
   match sg with
   | .normal => Rel σ π
-  | .brk | .cont => Rel { σ with ctxVals := σ.ctxVals.tail } π
+  | .brk | .cont => ∃ σ2, σ.dropCtx = .ok σ2 ∧ Rel σ2 π
   | .ret _ => False
 
 /-! ### updates that keep the relation -/
@@ -312,6 +312,333 @@ theorem isBoilerplate_sound (b : List PyStmt) (k : Nat) (f : String) (h : isBoil
     b = boilerplate k f := by
   unfold isBoilerplate at h
   split at h <;> simp at h <;> obtain ⟨h1, h2⟩ := h <;> subst h1 <;> subst h2 <;> rfl
+
+
+/-! ### context values, conditions, `if` -/
+
+theorem Rel.setCtxVals {σ : RSt} {π : PSt} (h : Rel σ π) (cv : List Val) :
+    Rel { σ with ctxVals := cv } { π with ctxVals := cv } :=
+  ⟨h.d0, h.pd0, h.stack, rfl, h.inputs, h.register, h.ghost, h.out, h.printed, h.retain, h.useTop, h.vars, h.clean⟩
+
+theorem exec_ctxAppend (cfg : Cfg) (n : Nat) (e : PyExpr) (v : Val) (π : PSt) (he : evalE cfg n e π = .ok (v, π)) :
+    execPS cfg n (ctxCall "context_values" "append" [e]) π = .ok (.normal, { π with ctxVals := v :: π.ctxVals }) := by
+  simp [ctxCall, ctxE, execPS, ctxListOp, he]
+
+theorem exec_ctxPop (cfg : Cfg) (n : Nat) (π : PSt) (x : Val) (r : List Val) (h : π.ctxVals = x :: r) :
+    execPS cfg n (ctxCall "context_values" "pop" []) π = .ok (.normal, { π with ctxVals := r }) := by
+  simp [ctxCall, ctxE, execPS, ctxListOp, h]
+
+/-- `condition = pop(stack, 1, ctx=ctx)` -/
+theorem exec_condPop {σ : RSt} {π : PSt} (cfg : Cfg) (n : Nat) (h : Rel σ π) :
+    execPS cfg n condPop π = .ok (.normal, (popPi σ π 1).setVar ("condition", []) σ.pop1.1) ∧
+    Rel σ.pop1.2 ((popPi σ π 1).setVar ("condition", []) σ.pop1.1) := by
+  constructor
+  · simp only [condPop, assign1, nm]
+    exact exec_assign_name cfg n "condition" _ _ π _ (eval_pop1kw cfg n h)
+  · exact (rel_pop1 h).setJunk "condition" _ (by decide)
+
+@[simp] theorem pyTruth_b2i (b : Bool) : pyTruth (.int (b2i b)) = b := by
+  cases b <;> simp [pyTruth, b2i]
+
+theorem eval_boolifyCond (cfg : Cfg) (n : Nat) (π : PSt) (x : Val) (h : π.getVar ("condition", []) = some x) :
+    evalE cfg n boolifyCond π = .ok (.int (b2i (truthy x)), π) := by
+  simp [boolifyCond, callN, nm, evalE, evalSpecial, h]
+
+
+/-- `code` simulates `prog` at fuel `n`: from related states, whenever the reference semantics is defined, the
+    Python semantics yields the corresponding signal and a related state -/
+def Sims (cfg : Cfg) (n : Nat) (prog : List Structure) (code : List PyStmt) : Prop :=
+  ∀ σ π sg σ', Rel σ π → execL cfg n prog σ = .ok (sg, σ') →
+    ∃ π', execPL cfg n code π = .ok (sigP sg, π') ∧ Post sg σ' π'
+
+inductive All2 {α β} (R : α → β → Prop) : List α → List β → Prop
+  | nil : All2 R [] []
+  | cons {a b as bs} : R a b → All2 R as bs → All2 R (a :: as) (b :: bs)
+
+theorem ifChain_cons2 (b0 b1 : List PyStmt) (rest : List (List PyStmt)) :
+    ifChain (b0 :: b1 :: rest) = [condPop, .ifS boolifyCond b0 (b1 ++ ifChain rest)] := by
+  cases rest with
+  | nil => simp [ifChain]
+  | cons r rs => simp [ifChain]
+
+theorem exec_if (cfg : Cfg) (n : Nat) (π : PSt) (x : Val) (t e : List PyStmt) (h : π.getVar ("condition", []) = some x) :
+    execPS cfg n (.ifS boolifyCond t e) π = if truthy x then execPL cfg n t π else execPL cfg n e π := by
+  simp [execPS, eval_boolifyCond cfg n π x h]
+
+theorem sim_ifChain (cfg : Cfg) (n : Nat) :
+    ∀ (bs : List (List Structure)) (cs : List (List PyStmt)), All2 (Sims cfg n) bs cs →
+    ∀ σ π sg σ', Rel σ π → execIf cfg n bs σ = .ok (sg, σ') →
+      ∃ π', execPL cfg n (ifChain cs) π = .ok (sigP sg, π') ∧ Post sg σ' π'
+  | [], [], _, σ, π, sg, σ', h, hr => by
+      simp [execIf] at hr; obtain ⟨h1, h2⟩ := hr; subst h1; subst h2
+      exact ⟨π, by simp [ifChain, execPL, sigP], h⟩
+  | [b0], [c0], hall, σ, π, sg, σ', h, hr => by
+      obtain ⟨hc, hR⟩ := exec_condPop cfg n h
+      have h0 : Sims cfg n b0 c0 := by cases hall; assumption
+      simp only [execIf] at hr
+      simp only [ifChain, execPL_cons, hc]
+      rw [exec_if cfg n _ σ.pop1.1 _ _ (getVar_setVar_eq _ _ _)]
+      by_cases ht : truthy σ.pop1.1
+      · simp only [ht, ↓reduceIte] at hr ⊢
+        obtain ⟨π', he, hP⟩ := h0 _ _ _ _ hR hr
+        refine ⟨π', ?_, hP⟩
+        rw [he]; cases sg <;> simp [sigP, execPL]
+      · simp only [ht] at hr ⊢
+        simp at hr; obtain ⟨h1, h2⟩ := hr; subst h1; subst h2
+        exact ⟨_, by simp [execPL, sigP], hR⟩
+  | b0 :: b1 :: rest, c0 :: c1 :: crest, hall, σ, π, sg, σ', h, hr => by
+      obtain ⟨hc, hR⟩ := exec_condPop cfg n h
+      have h0 : Sims cfg n b0 c0 := by cases hall; assumption
+      have h1 : Sims cfg n b1 c1 := by cases hall with | cons _ t => cases t; assumption
+      have hrest : All2 (Sims cfg n) rest crest := by cases hall with | cons _ t => cases t; assumption
+      simp only [execIf] at hr
+      rw [ifChain_cons2]
+      simp only [execPL_cons, hc]
+      rw [exec_if cfg n _ σ.pop1.1 _ _ (getVar_setVar_eq _ _ _)]
+      by_cases ht : truthy σ.pop1.1
+      · simp only [ht, ↓reduceIte] at hr ⊢
+        obtain ⟨π', he, hP⟩ := h0 _ _ _ _ hR hr
+        refine ⟨π', ?_, hP⟩
+        rw [he]; cases sg <;> simp [sigP, execPL]
+      · simp only [ht] at hr ⊢
+        simp only [Bool.false_eq_true, ↓reduceIte] at hr ⊢
+        cases hb : execL cfg n b1 σ.pop1.2 with
+        | error e => simp [hb] at hr
+        | ok r =>
+          obtain ⟨sg1, σ1⟩ := r
+          obtain ⟨π1, he1, hP1⟩ := h1 _ _ _ _ hR hb
+          simp only [hb, R_ok_bind] at hr
+          rw [execPL_append, he1]
+          cases sg1 with
+          | normal =>
+            simp only [sigP]
+            obtain ⟨π', he, hP⟩ := sim_ifChain cfg n rest crest hrest _ _ _ _ hP1 hr
+            refine ⟨π', ?_, hP⟩
+            rw [he]; cases sg <;> simp [sigP, execPL]
+          | brk => simp at hr; obtain ⟨h1, h2⟩ := hr; subst h1; subst h2; exact ⟨π1, by simp [sigP, execPL], hP1⟩
+          | cont => simp at hr; obtain ⟨h1, h2⟩ := hr; subst h1; subst h2; exact ⟨π1, by simp [sigP, execPL], hP1⟩
+          | ret v => exact absurd hP1 (by simp [Post])
+  | [], _ :: _, hall, _, _, _, _, _, _ => by cases hall
+  | _ :: _, [], hall, _, _, _, _, _, _ => by cases hall
+  | [_], _ :: _ :: _, hall, _, _, _, _, _, _ => by cases hall with | cons _ t => cases t
+  | _ :: _ :: _, [_], hall, _, _, _, _, _, _ => by cases hall with | cons _ t => cases t
+
+
+/-! ### loops -/
+
+def loopName (k : Nat) : Str := [76, 79, 79, 80] ++ digitsOfNat k
+
+theorem isLoopName_loopName (k : Nat) : isLoopName (loopName k) = true := by
+  simp [isLoopName, loopName, loopPrefix]
+
+theorem loopName_ne_nil (k : Nat) : loopName k ≠ [] := by simp [loopName]
+
+/-- the Python variable of an unnamed loop is outside the relation -/
+theorem Rel.setLoopVar {σ : RSt} {π : PSt} (h : Rel σ π) (nm : Str) (hn : isLoopName nm = true) (hne : nm ≠ []) (v : Val) :
+    Rel σ (π.setVar ("VAR_", nm) v) := by
+  refine ⟨h.d0, by simp [h.pd0], ?_, by simp [h.ctxVals], by simp [h.inputs], by simp [h.register], by simp [h.ghost],
+    by simp [h.out], by simp [h.printed], by simp [h.retain], by simp [h.useTop], ?_, ?_⟩
+  · rw [setVar_d0 _ _ _ h.pd0]; simp only
+    rw [lookupP_setP_ne]; exact h.stack
+    intro he; injection he with h1 h2; exact absurd h1 (by decide)
+  · intro x hx hl
+    rw [setVar_d0 _ _ _ h.pd0]; simp only
+    rw [lookupP_setP_ne]; exact h.vars x hx hl
+    intro he; injection he with h1 h2; subst h2; rw [hn] at hl; exact absurd hl (by decide)
+  · intro f hj hs
+    rw [setVar_d0 _ _ _ h.pd0]; simp only
+    rw [lookupP_setP_ne]; exact h.clean f hj hs
+    intro he; injection he with h1 h2; exact hne h2.symm
+
+/-- a program variable -/
+theorem Rel.setProgVar {σ : RSt} {π : PSt} (h : Rel σ π) (nm : Str) (hne : nm ≠ []) (v : Val) :
+    Rel { σ with globals := setKV nm v σ.globals } (π.setVar ("VAR_", nm) v) := by
+  refine ⟨h.d0, by simp [h.pd0], ?_, by simp [h.ctxVals], by simp [h.inputs], by simp [h.register], by simp [h.ghost],
+    by simp [h.out], by simp [h.printed], by simp [h.retain], by simp [h.useTop], ?_, ?_⟩
+  · rw [setVar_d0 _ _ _ h.pd0]; simp only
+    rw [lookupP_setP_ne]; exact h.stack
+    intro he; injection he with h1 h2; exact absurd h1 (by decide)
+  · intro x hx hl
+    rw [setVar_d0 _ _ _ h.pd0]; simp only
+    by_cases hxn : x = nm
+    · subst hxn; rw [lookupP_setP_eq, lookupKV_setKV_eq]
+    · rw [lookupP_setP_ne, lookupKV_setKV_ne _ _ _ _ hxn]; exact h.vars x hx hl
+      intro he; injection he with h1 h2; exact hxn h2
+  · intro f hj hs
+    rw [setVar_d0 _ _ _ h.pd0]; simp only
+    rw [lookupP_setP_ne]; exact h.clean f hj hs
+    intro he; injection he with h1 h2; exact hne h2.symm
+
+theorem Rel.setGhost {σ : RSt} {π : PSt} (h : Rel σ π) (v : Val) : Rel { σ with ghost := v } { π with ghost := v } :=
+  ⟨h.d0, h.pd0, h.stack, h.ctxVals, h.inputs, h.register, rfl, h.out, h.printed, h.retain, h.useTop, h.vars, h.clean⟩
+
+/-- the loop variable of a `for`: what the reference loop binds and the Python target -/
+inductive ForVar : Option Str → PyExpr → Prop
+  | unnamed (k : Nat) : ForVar Option.none (.pname "VAR_" (loopName k))
+  | ghost : ForVar (some []) (.attr ctxE "ghost_variable")
+  | named (v : Str) (hv : v ≠ []) : ForVar (some v) (.pname "VAR_" v)
+
+theorem for_bind {σ : RSt} {π : PSt} (cfg : Cfg) (n : Nat) {var : Option Str} {pvar : PyExpr} (hv : ForVar var pvar) (h : Rel σ π) (x : Val) :
+    ∃ π0, assignTo pvar x π = .ok π0 ∧ Rel (bindFor var x σ) π0 ∧ evalE cfg n pvar π0 = .ok (x, π0) := by
+  cases hv with
+  | unnamed k =>
+    refine ⟨π.setVar ("VAR_", loopName k) x, by simp [assignTo], ?_, ?_⟩
+    · exact h.setLoopVar _ (isLoopName_loopName k) (loopName_ne_nil k) x
+    · simp [evalE, getVar_setVar_eq]
+  | ghost =>
+    refine ⟨{ π with ghost := x }, by simp [assignTo, ctxE], ?_, ?_⟩
+    · exact h.setGhost x
+    · simp [evalE, ctxE, isCtxName]
+  | named v hv =>
+    refine ⟨π.setVar ("VAR_", v) x, by simp [assignTo], ?_, ?_⟩
+    · cases v with
+      | nil => exact absurd rfl hv
+      | cons c cs => exact h.setProgVar _ hv x
+    · simp [evalE, getVar_setVar_eq]
+
+
+/-- `Sims` at every fuel -/
+def SimsAll (cfg : Cfg) (prog : List Structure) (code : List PyStmt) : Prop := ∀ n, Sims cfg n prog code
+
+theorem dropCtx_cons (σ : RSt) (x : Val) (r : List Val) (h : σ.ctxVals = x :: r) : σ.dropCtx = .ok { σ with ctxVals := r } := by
+  simp [RSt.dropCtx, h]
+
+theorem dropCtx_ok {σ σ2 : RSt} (h : σ.dropCtx = .ok σ2) : ∃ x r, σ.ctxVals = x :: r ∧ σ2 = { σ with ctxVals := r } := by
+  unfold RSt.dropCtx at h
+  match hc : σ.ctxVals with
+  | [] => rw [hc] at h; simp at h
+  | x :: r => rw [hc] at h; simp at h; exact ⟨x, r, rfl, h.symm⟩
+
+/-- one iteration body of a loop: push the context value, run, pop -/
+theorem sim_loopBody {σ : RSt} {π : PSt} (cfg : Cfg) (n : Nat) (body : List Structure) (pbody : List PyStmt)
+    (hb : Sims cfg n body pbody) (e : PyExpr) (x : Val) (h : Rel σ π) (he : evalE cfg n e π = .ok (x, π))
+    (sg : Sig) (σ1 σ2 : RSt) (hr : execL cfg n body { σ with ctxVals := x :: σ.ctxVals } = .ok (sg, σ1))
+    (hd : σ1.dropCtx = .ok σ2) :
+    ∃ π2, execPL cfg n ([ctxCall "context_values" "append" [e]] ++ pbody ++ [ctxCall "context_values" "pop" []]) π =
+        .ok (sigP sg, π2) ∧ Rel σ2 π2 ∧ (∀ v, sg ≠ .ret v) := by
+  have hR0 : Rel { σ with ctxVals := x :: σ.ctxVals } { π with ctxVals := x :: π.ctxVals } := by
+    have := h.setCtxVals (x :: σ.ctxVals); rwa [h.ctxVals]
+  obtain ⟨π1, he1, hP1⟩ := hb _ _ _ _ hR0 hr
+  simp only [List.cons_append, List.nil_append, execPL_cons, exec_ctxAppend cfg n e x π he]
+  rw [execPL_append, he1]
+  cases sg with
+  | normal =>
+    obtain ⟨y, r, hc, h2⟩ := dropCtx_ok hd
+    have hP1' : Rel σ1 π1 := hP1
+    have hpc : π1.ctxVals = y :: r := by rw [hP1'.ctxVals, hc]
+    simp only [sigP, execPL_cons, exec_ctxPop cfg n π1 y r hpc, execPL]
+    refine ⟨_, rfl, ?_, by intro v; simp⟩
+    subst h2; exact hP1'.setCtxVals r
+  | brk =>
+    obtain ⟨σ2', hd', hR⟩ := hP1
+    rw [hd] at hd'; injection hd' with hd'; subst hd'
+    exact ⟨π1, by simp [sigP], hR, by intro v; simp⟩
+  | cont =>
+    obtain ⟨σ2', hd', hR⟩ := hP1
+    rw [hd] at hd'; injection hd' with hd'; subst hd'
+    exact ⟨π1, by simp [sigP], hR, by intro v; simp⟩
+  | ret v => exact absurd hP1 (by simp [Post])
+
+theorem sim_for (cfg : Cfg) (body : List Structure) (pbody : List PyStmt) (hb : SimsAll cfg body pbody)
+    (var : Option Str) (pvar : PyExpr) (hv : ForVar var pvar) :
+    ∀ (n : Nat) (items : List Val) (σ : RSt) (π : PSt) (sg : Sig) (σ' : RSt), Rel σ π →
+      forLoop cfg n var body items σ = .ok (sg, σ') →
+      ∃ π', forPy cfg n pvar ([ctxCall "context_values" "append" [pvar]] ++ pbody ++ [ctxCall "context_values" "pop" []]) items π =
+          .ok (sigP sg, π') ∧ Post sg σ' π'
+  | n, [], σ, π, sg, σ', h, hr => by
+      simp [forLoop] at hr; obtain ⟨h1, h2⟩ := hr; subst h1; subst h2
+      exact ⟨π, by simp [forPy, sigP], h⟩
+  | 0, x :: xs, σ, π, sg, σ', h, hr => by simp [forLoop] at hr
+  | n + 1, x :: xs, σ, π, sg, σ', h, hr => by
+      obtain ⟨π0, ha, hR0, hev⟩ := for_bind cfg n hv h x
+      simp only [forLoop] at hr
+      cases hbd : execL cfg n body { bindFor var x σ with ctxVals := x :: (bindFor var x σ).ctxVals } with
+      | error e => simp [hbd] at hr
+      | ok r1 =>
+        obtain ⟨sg1, σ1⟩ := r1
+        simp only [hbd, R_ok_bind] at hr
+        cases hd : σ1.dropCtx with
+        | error e => simp [hd] at hr
+        | ok σ2 =>
+          simp only [hd, R_ok_bind] at hr
+          obtain ⟨π2, he2, hR2, hnr⟩ := sim_loopBody cfg n body pbody (hb n) pvar x hR0 hev sg1 σ1 σ2 hbd hd
+          simp only [forPy, ha, R_ok_bind, he2]
+          cases sg1 with
+          | normal =>
+            simp only [sigP]
+            exact sim_for cfg body pbody hb var pvar hv n xs σ2 π2 sg σ' hR2 hr
+          | cont =>
+            simp only [sigP]
+            exact sim_for cfg body pbody hb var pvar hv n xs σ2 π2 sg σ' hR2 hr
+          | brk =>
+            simp at hr; obtain ⟨h1, h2⟩ := hr; subst h1; subst h2
+            exact ⟨π2, by simp [sigP], hR2⟩
+          | ret v => exact absurd rfl (hnr v)
+
+
+theorem eval_nm_condition (cfg : Cfg) (n : Nat) (π : PSt) (x : Val) (h : π.getVar ("condition", []) = some x) :
+    evalE cfg n (nm "condition") π = .ok (x, π) := by
+  simp [nm, evalE, h]
+
+theorem sim_while (cfg : Cfg) (cond : Option (List Structure)) (pcond : List PyStmt) (hc : SimsAll cfg (condProg cond) pcond)
+    (body : List Structure) (pbody : List PyStmt) (hb : SimsAll cfg body pbody) :
+    ∀ (n : Nat) (x : Val) (σ : RSt) (π : PSt) (sg : Sig) (σ' : RSt), Rel σ π → π.getVar ("condition", []) = some x →
+      whileLoop cfg n cond body x σ = .ok (sg, σ') →
+      ∃ π', whilePy cfg n boolifyCond
+          ([ctxCall "context_values" "append" [nm "condition"]] ++ pbody ++ [ctxCall "context_values" "pop" []] ++ pcond ++ [condPop]) π =
+          .ok (sigP sg, π') ∧ Post sg σ' π'
+  | 0, x, σ, π, sg, σ', h, hx, hr => by
+      simp only [whileLoop] at hr
+      by_cases ht : truthy x
+      · simp [ht] at hr
+      · simp [ht] at hr; obtain ⟨h1, h2⟩ := hr; subst h1; subst h2
+        exact ⟨π, by simp [whilePy, eval_boolifyCond cfg 0 π x hx, ht, sigP], h⟩
+  | n + 1, x, σ, π, sg, σ', h, hx, hr => by
+      simp only [whileLoop] at hr
+      simp only [whilePy, eval_boolifyCond cfg n π x hx, R_ok_bind, pyTruth_b2i]
+      by_cases ht : truthy x
+      · simp only [ht, Bool.not_true, Bool.false_eq_true, ↓reduceIte] at hr ⊢
+        cases hbd : execL cfg n body { σ with ctxVals := x :: σ.ctxVals } with
+        | error e => simp [hbd] at hr
+        | ok r1 =>
+          obtain ⟨sg1, σ1⟩ := r1
+          simp only [hbd, R_ok_bind] at hr
+          cases hd : σ1.dropCtx with
+          | error e => simp [hd] at hr
+          | ok σ2 =>
+            simp only [hd, R_ok_bind] at hr
+            obtain ⟨π2, he2, hR2, hnr⟩ := sim_loopBody cfg n body pbody (hb n) (nm "condition") x h
+              (eval_nm_condition cfg n π x hx) sg1 σ1 σ2 hbd hd
+            rw [List.append_assoc, execPL_append, he2]
+            cases sg1 with
+            | normal =>
+              simp only [sigP]
+              cases hcd : execL cfg n (condProg cond) σ2 with
+              | error e => simp [hcd] at hr
+              | ok r3 =>
+                obtain ⟨sg3, σ3⟩ := r3
+                simp only [hcd, R_ok_bind] at hr
+                obtain ⟨π3, he3, hP3⟩ := hc n _ _ _ _ hR2 hcd
+                rw [execPL_append, he3]
+                cases sg3 with
+                | normal =>
+                  simp only [sigP] at hr ⊢
+                  have hR3 : Rel σ3 π3 := hP3
+                  obtain ⟨hcp, hR4⟩ := exec_condPop cfg n hR3
+                  simp only [execPL_cons, hcp, execPL]
+                  have := sim_while cfg cond pcond hc body pbody hb n σ3.pop1.1 σ3.pop1.2 _ sg σ' hR4 (getVar_setVar_eq _ _ _) hr
+                  simpa [List.append_assoc, sigP] using this
+                | brk => simp at hr
+                | cont => simp at hr
+                | ret v => simp at hr
+            | cont => simp at hr
+            | brk =>
+              simp at hr; obtain ⟨h1, h2⟩ := hr; subst h1; subst h2
+              exact ⟨π2, by simp [sigP], hR2⟩
+            | ret v => exact absurd rfl (hnr v)
+      · simp only [ht, Bool.not_false, ↓reduceIte] at hr ⊢
+        simp at hr; obtain ⟨h1, h2⟩ := hr; subst h1; subst h2
+        exact ⟨π, by simp [sigP], h⟩
 
 
 end Vy.Sem
